@@ -168,7 +168,22 @@ fn mapfile_case(tool: &str, rng: &mut Rng) -> (String, String) {
     for _ in 0..nsec {
         let sec = *rng.pick(&sections);
         desc.push_str(sec); desc.push(' ');
-        text.push_str(&format!("!{}\n", sec));
+        // one in five headers is damaged: a character dropped or doubled, cut short, or one of the overlapping forms
+        let header: String = if rng.chance(1, 5) {
+            let base = *rng.pick(&["enum(name=\"Color\")", "enum(name=\"\")", "ins_names", "enum(name=\"bool\")", sec]);
+            let mut h: Vec<char> = base.chars().collect();
+            match rng.below(6) {
+                0 => { let k = rng.below(h.len() as u64) as usize; h.remove(k); },
+                1 => { let k = rng.below(h.len() as u64) as usize; let c = h[k]; h.insert(k, c); },
+                2 => { let k = rng.below(h.len() as u64 + 1) as usize; h.truncate(k); },
+                3 => { h = "enum(name=\")".chars().collect(); },
+                4 => { let k = rng.below(h.len() as u64 + 1) as usize; h.insert(k, *rng.pick(&['"', '(', ')', '=', ' ', '!', '\\'])); },
+                _ => { h = (*rng.pick(&["enum(name=\"", "enum(name=\"a", "enum(\")", "enum(name=)", "enum()", "enum(name=\"a\")x", "enum(name=\"a\" )", "(", "enum(name=\"\"\")"])).chars().collect(); },
+            }
+            desc.push_str("damaged-header ");
+            h.into_iter().collect()
+        } else { sec.to_string() };
+        text.push_str(&format!("!{}\n", header));
         for _ in 0..(1 + rng.below(4)) {
             let num = if rng.chance(3, 4) { numbers[rng.below(6) as usize] } else { *rng.pick(&numbers) };
             let val: String = match sec {
@@ -513,6 +528,88 @@ fn coherent_map_case(tool: &str, flags: &[String], rng: &mut Rng) -> (String, St
     (src, map, desc, pragma)
 }
 
+fn anm_head() -> &'static str { "entry { path: \"a.png\", has_data: false, img_width: 8, img_height: 8, img_format: 3, offset_x: 0, offset_y: 0, colorkey: 0, memory_priority: 0, low_res_scale: false, sprites: {s0: {id: 0, x: 0.0, y: 0.0, w: 8.0, h: 8.0}} }\n" }
+
+/// (a) old-ECL sub calls: parameter lists of every shape, arguments from constants to compound expressions
+fn ecl_call_case(rng: &mut Rng) -> (&'static str, &'static str, String, String) {
+    let game = *rng.pick(&["6", "6", "7", "8", "6"]);
+    // EoSD subs take at most one int and one float; mostly stay inside that, sometimes not
+    let ptys: Vec<&str> = if rng.chance(4, 5) { rng.pick(&[vec![], vec!["int"], vec!["float"], vec!["int", "float"], vec!["float", "int"], vec!["int"]]).clone() }
+                          else { (0..rng.below(4) as usize).map(|_| *rng.pick(&["int", "float"])).collect() };
+    let nparams = ptys.len();
+    let params = ptys.iter().enumerate().map(|(k, t)| format!("{} p{}", t, k)).collect::<Vec<_>>().join(", ");
+    let ipool = ["1", "I0", "I0 + 1", "-I0", "I0 * I1", "(1:2:3:4)", "I0 ? 1 : 2", "int(F0)", "$F0", "I0 + I1 + I2", "offsetof(lbl)", "timeof(lbl)", "~I0", "2147483647", "I1"];
+    let fpool = ["1.0", "F0", "F0 * 2.0", "-F0", "sin(F0)", "float(I0)", "%I0", "(1.0:2.0)", "F0 + F1", "I0 ? 1.0 : 2.0", "sqrt(F0)", "F1", "INF"];
+    let mut body = String::from("  lbl:\n");
+    for _ in 0..(1 + rng.below(2)) {
+        let nargs = if rng.chance(1, 10) { nparams + 1 } else { nparams };
+        let swap = rng.chance(1, 10);   // an ill-typed call now and then
+        let args = (0..nargs).map(|k| if (ptys.get(k) == Some(&"float")) != swap { *rng.pick(&fpool) } else { *rng.pick(&ipool) }).collect::<Vec<_>>().join(", ");
+        match rng.below(6) {
+            0 => body.push_str(&format!("    call(sub1, {}, {});\n", *rng.pick(&ipool), *rng.pick(&fpool))),
+            1 => body.push_str(&format!("    {{\"EN\"}}: sub1({});\n", args)),
+            2 => body.push_str(&format!("    if (I0 == 1) sub1({});\n", args)),
+            _ => body.push_str(&format!("    sub1({});\n", args)),
+        }
+    }
+    let src = format!("#pragma mapfile \"{}/map/any.eclm\"\nscript timeline0 {{}}\nvoid sub0() {{\n{}}}\nvoid sub1({}) {{}}\n", repo_root(), body, params);
+    ("truecl", game, src, format!("sub1({}) called", params))
+}
+
+/// (d) label-derived values (timeof / offsetof) in arguments with narrow encodings, labels far away in time / offset
+fn label_arg_case(rng: &mut Rng) -> (&'static str, &'static str, String, String, String) {
+    let (tool, game) = *rng.pick(&[("truanm", "12"), ("truanm", "6"), ("trustd", "8"), ("trustd", "12"), ("trumsg", "6"), ("truecl", "6"), ("truecl", "8")]);
+    let sig = *rng.pick(&["s", "b", "u", "c", "sS", "Ss", "o", "t", "ot", "to", "bb", "s_", "U", "S", "f", "C", "n"]);
+    let mut depth = 0; let mut arity = 0;
+    for c in sig.chars() { match c { '(' => depth += 1, ')' => depth -= 1, '_' | '-' => {}, c if depth == 0 && c.is_ascii_alphabetic() => arity += 1, _ => {} } }
+    let pool = ["timeof(lbl)", "offsetof(lbl)", "timeof(lbl) + 1", "-timeof(lbl)", "offsetof(lbl) * 2", "timeof(far)", "offsetof(far)", "1", "offsetof(lbl) - offsetof(far)", "timeof(lbl) % 7"];
+    let args = (0..arity).map(|_| *rng.pick(&pool)).collect::<Vec<_>>().join(", ");
+    let time = *rng.pick(&["40000", "70000", "300", "32768", "2147483647", "5", "65536"]);
+    let filler = "    ins_901();\n".repeat(*rng.pick(&[0usize, 1, 40, 300, 5000]));
+    let body = format!("    ins_900({});\n+{}:\n  lbl:\n    ins_901();\n{}  far:\n    ins_901();\n", args, time, filler);
+    let map = format!("{}\n!ins_signatures\n900 {}\n901 \n", map_magic(tool), sig);
+    let src = match tool {
+        "truanm" => format!("{}script s {{\n{}}}\n", anm_head(), body),
+        "trustd" => format!("meta {{ unknown: 0, anm_path: \"a.anm\", stage_name: \"s\", bgm: [{{path: \" \", name: \" \"}}, {{path: \" \", name: \" \"}}, {{path: \" \", name: \" \"}}, {{path: \" \", name: \" \"}}], objects: {{}}, instances: [] }}\nscript main {{\n{}}}\n", body),
+        "trumsg" => format!("meta {{ table: {{ 0: {{script: \"main\"}} }} }}\nscript main {{\n{}}}\n", body),
+        _ => format!("script timeline0 {{}}\nvoid sub0() {{\n{}}}\n", body),
+    };
+    (tool, game, src, map, format!("{} sig {} ({}) label at +{}", tool, sig, args, time))
+}
+
+/// (e) expressions of every kind where only compile-time values make sense: mission entries, meta / entry fields, consts
+fn meta_expr_case(rng: &mut Rng) -> (&'static str, &'static str, Vec<String>, String, String) {
+    let pool = ["REG[10]", "$REG[1]", "%REG[10000]", "ins_10()", "ins_10(1, 2)", "foo()", "I0", "(1:2)", "1 + 2", "offsetof(x)", "timeof(x)", "\"a\" + 1", "sin(1.0)", "INF", "true", "-1",
+                "1 ? 2 : 3", "int(2.5)", "bool.true", "undefined_name", "s0", "x++", "1 / 0", "2147483647 + 1", "@arg0", "foo(@blob=\"00\")", "[1, 2]", "{a: 1}", "\"s\"", "1.5"];
+    let e = *rng.pick(&pool); let e2 = *rng.pick(&pool);
+    match rng.below(8) {
+        0 | 1 => ("trumsg", "095", vec!["--mission".to_string()], format!("entry {{ stage: {}, scene: {}, face: 3, point: 4, text: [\"a\", \"b\", \"c\"] }}\n", e, e2), format!("mission095 stage: {}", e)),
+        2 => ("trumsg", "125", vec!["--mission".to_string()], format!("entry {{ stage: 1, scene: 2, player: {}, unknown_1: 0, unknown_2: 0, point_1: {}, point_2: 4, furigana: [[0, 0], [1, 1], [2, 2]], text: [\"a\", \"b\", \"c\", \"d\", \"e\", \"f\"] }}\n", e, e2), format!("mission125 player: {}", e)),
+        3 => ("trumsg", "095", vec!["--mission".to_string()], format!("const int k = {};\n{}\nentry {{ stage: k, scene: 2, face: 3, point: 4, text: [\"a\", \"b\", {}] }}\n", e, *rng.pick(&["", "script s {}", "void f() {}", "script s { ins_1(); }", "int f(int x) { return x; }"]), e2), format!("mission const k = {}", e)),
+        4 => ("truanm", "12", vec![], format!("entry {{ path: \"a.png\", has_data: false, img_width: {}, img_height: 8, img_format: 3, offset_x: {}, offset_y: 0, colorkey: 0, memory_priority: 0, low_res_scale: false, sprites: {{s0: {{id: {}, x: 0.0, y: 0.0, w: 8.0, h: 8.0}}}} }}\nscript s {{}}\n", e, e2, e), format!("anm entry img_width: {}", e)),
+        5 => ("trustd", "12", vec![], format!("meta {{ unknown: {}, anm_path: \"a.anm\", objects: {{}}, instances: [] }}\nscript main {{}}\n", e), format!("std unknown: {}", e)),
+        6 => ("trumsg", "12", vec![], format!("meta {{ table: {{ 0: {{script: \"main\", flags: {}}} }}, table_len: {} }}\nscript main {{}}\n", e, e2), format!("msg flags: {}", e)),
+        _ => ("truecl", "10", vec![], format!("meta {{ ecli: [{}], anim: [{}] }}\nvoid main() {{}}\n", e, e2), format!("ecl10 ecli: [{}]", e)),
+    }
+}
+
+/// (f) statements in places where they do not belong: `return` in a script, `break` outside a loop, labels of every kind
+fn stmt_context_case(rng: &mut Rng) -> (&'static str, &'static str, String, String) {
+    let pool = ["return;", "return 1;", "return I0;", "break;", "continue;", "goto nowhere;", "goto lbl @ 5;", "interrupt[1]:", "+5:", "-5:", "10:", "{\"E\"}: ins_1();", "const int k = 1;",
+                "int x; int x;", "x = 1;", "while (1) { break; }", "loop { continue; }", "times(0) {}", "if (1) return;", "do {} while (0);", "lbl:", "lbl: lbl:", "{ return; }", "void f() {}", "script t {}", "return; return;", "break 2;"];
+    let mut body = String::new();
+    for _ in 0..(1 + rng.below(3)) { body.push_str("    "); body.push_str(*rng.pick(&pool)); body.push('\n'); }
+    let (tool, game, src): (&str, &str, String) = match rng.below(7) {
+        0 | 1 => ("truanm", *rng.pick(&["6", "12"]), format!("#pragma mapfile \"{}/map/any.anmm\"\n{}script s {{\n{}}}\n", repo_root(), anm_head(), body)),
+        2 => ("trustd", "8", format!("meta {{ unknown: 0, stage_name: \"s\", bgm: [{{path: \" \", name: \" \"}}, {{path: \" \", name: \" \"}}, {{path: \" \", name: \" \"}}, {{path: \" \", name: \" \"}}], objects: {{}}, instances: [] }}\nscript main {{\n{}}}\n", body)),
+        3 => ("trumsg", "6", format!("meta {{ table: {{ 0: {{script: \"main\"}} }} }}\nscript main {{\n{}}}\n", body)),
+        4 => ("truecl", *rng.pick(&["6", "8"]), format!("#pragma mapfile \"{}/map/any.eclm\"\nscript timeline0 {{\n{}}}\nvoid sub0() {{}}\n", repo_root(), body)),
+        5 => ("truecl", *rng.pick(&["6", "8"]), format!("#pragma mapfile \"{}/map/any.eclm\"\nscript timeline0 {{}}\nvoid sub0() {{\n{}}}\n{}", repo_root(), body, *rng.pick(&["", "return;\n", "break;\n", "ins_1();\n", "lbl:\n"]))),
+        _ => ("truecl", "10", format!("meta {{ ecli: [], anim: [] }}\nvoid main() {{\n{}}}\n", body)),
+    };
+    (tool, game, src, format!("{} {}", tool, body.replace('\n', " ").chars().take(60).collect::<String>()))
+}
+
 /// difficulty switches: lengths that differ between nesting levels, more cases than a mask has bits, empty cases
 fn diff_switch(rng: &mut Rng, depth: u32, float: bool) -> String {
     let n = *rng.pick(&[1usize, 2, 3, 4, 4, 4, 4, 5, 6, 8, 9, 33, 40, 70]);
@@ -570,8 +667,20 @@ fn generate(seeds: &[Seed], budget: usize, tier: &str, rng: &mut Rng) -> Vec<Inp
     let configs: [(&str, &str, &[&str]); 12] = [("truanm", "6", &[]), ("truanm", "12", &[]), ("truanm", "17", &[]), ("trustd", "6", &[]), ("trustd", "8", &[]), ("trustd", "12", &[]),
         ("trumsg", "6", &[]), ("trumsg", "12", &[]), ("trumsg", "10", &["--ending"]), ("trumsg", "095", &["--mission"]), ("truecl", "6", &[]), ("truecl", "10", &[])];
     while out.len() < budget {
-        let c = g.below(134);
-        if c >= 124 {
+        let c = g.below(160);
+        if c >= 153 {
+            let (tool, game, src, desc) = stmt_context_case(&mut g);
+            out.push(Input { tool: tool.into(), game: game.into(), flags: vec![], kind: "stmt-context", desc, source: src.into_bytes(), mapfile: None });
+        } else if c >= 146 {
+            let (tool, game, flags, src, desc) = meta_expr_case(&mut g);
+            out.push(Input { tool: tool.into(), game: game.into(), flags, kind: "meta-expr", desc, source: src.into_bytes(), mapfile: None });
+        } else if c >= 140 {
+            let (tool, game, src, map, desc) = label_arg_case(&mut g);
+            out.push(Input { tool: tool.into(), game: game.into(), flags: vec![], kind: "label-arg", desc, source: src.into_bytes(), mapfile: Some(map.into_bytes()) });
+        } else if c >= 134 {
+            let (tool, game, src, desc) = ecl_call_case(&mut g);
+            out.push(Input { tool: tool.into(), game: game.into(), flags: vec![], kind: "ecl-call", desc, source: src.into_bytes(), mapfile: None });
+        } else if c >= 124 {
             let (tool, game, flags) = if g.chance(1, 2) { ("truecl", *g.pick(&["6", "7", "8", "10", "6"]), &[][..]) } else { *g.pick(&configs) };
             let flags: Vec<String> = flags.iter().map(|x| x.to_string()).collect();
             let (src, map, desc, pragma) = coherent_map_case(tool, &flags, &mut g);
